@@ -97,3 +97,31 @@ def lemma_effect_order(ctx):
             st = top_level_line(first_write)
             out.append((f"{prog}: the first effect on the output path is not inside a loop", [], z3.BoolVal(not isinstance(st, (ast.For, ast.While)))))
     return out
+
+
+def lemma_write_is_unconditional(ctx):
+    """C11 (first clause: 'gen_params writes its output file for every input that passes mapping and link application'), as far as
+    the control flow of gen_params itself decides it: after the ApplyLinks stage no statement of the function body can leave the
+    function or skip the write -- there is no return / raise / break, and the deferred open, the itp writer and the flush are
+    top-level, unconditional statements.  (Callees may still raise: ApplyModifications for modifications that do not fit, the
+    vermouth writer for what it refuses -- decided by the bounded unit.)"""
+    import z3
+    from pyvc.types import Unsupported
+    mod = source.load("polyply.src.gen_itp")
+    fn = mod.functions.get("gen_params")
+    if fn is None:
+        raise Unsupported("gen_params not found (stale contract)")
+    body = fn.body
+    idx_links = [i for i, st in enumerate(body) if any(isinstance(n, ast.Call) and call_name(n) == "ApplyLinks" for n in ast.walk(st))]
+    idx_flush = [i for i, st in enumerate(body) if any(isinstance(n, ast.Call) and is_flush(n) for n in ast.walk(st))]
+    idx_open = [i for i, st in enumerate(body) if isinstance(st, ast.With) and any(isinstance(n, ast.Call) and call_name(n) == "deferred_open" for n in ast.walk(st.items[0].context_expr))]
+    if not idx_links:
+        raise Unsupported("the ApplyLinks stage was not found in gen_params (stale contract)")
+    after = body[idx_links[-1] + 1:]
+    exits = [n for st in after for n in ast.walk(st) if isinstance(n, (ast.Return, ast.Raise, ast.Break, ast.Continue))]
+    writer_in_with = bool(idx_open) and any(isinstance(n, ast.Call) and call_name(n) == "write_molecule_itp" for n in ast.walk(body[idx_open[-1]]))
+    return [("gen_params: the deferred open and the flush are top-level statements after the ApplyLinks stage", [],
+             z3.BoolVal(bool(idx_open) and bool(idx_flush) and idx_links[-1] < idx_open[-1] < idx_flush[-1])),
+            ("gen_params: the itp writer is called inside the deferred-open block", [], z3.BoolVal(writer_in_with)),
+            ("gen_params: no return / raise / break between the ApplyLinks stage and the end of the function"
+             + (f"  [line {exits[0].lineno}]" if exits else ""), [], z3.BoolVal(not exits))]
